@@ -52,6 +52,7 @@ func (tr *Translator) runBody(ct *Contract, full bool) {
 		st.guard = and(append([]Sx{st.guard}, tr.typeFacts(st, v)...)...)
 	}
 	tr.assumeGlobalInvs(st)
+	tr.assumeAxioms()
 	entry := st.clone()
 	tr.topArgs, tr.topEntry = args, entry
 	// known-finding regions (predicates over the inputs at entry)
@@ -299,5 +300,29 @@ func (tr *Translator) assumeGlobalInvs(st *State) {
 		tr.ginvDone[key] = true
 		c.axiom(owner, g)
 		c.note("global invariants of the mlrval singletons (ABSENT, VOID, NULL, TRUE, FALSE ...) are assumed at entry and after calls to unverified code; they are re-checked at exit of every verified function that writes the fields they mention")
+	}
+}
+
+// assumeAxioms: trusted facts about external functions (//@ axiom), attached to the uninterpreted
+// symbol they constrain so that they only enter queries that mention it.
+func (tr *Translator) assumeAxioms() {
+	c := tr.c
+	for _, ax := range tr.contracts.Axioms {
+		if ax.Clause.Expr == nil {
+			continue
+		}
+		st := &State{guard: "true", mem: map[string]Sx{}}
+		e := &Env{tr: tr, vars: map[string]Val{}, st: st, old: st, info: ax.Clause.Info}
+		g := e.expr(ax.Clause.Expr).t
+		owner := ""
+		for _, tok := range tokRe.FindAllString(g, -1) {
+			if strings.HasPrefix(tok, "ext_") {
+				if _, ok := c.declIdx[tok]; ok {
+					owner = tok
+				}
+			}
+		}
+		c.softAxiom(owner, g)
+		c.note("trusted axiom about library functions: " + ax.Name + ": " + ax.Clause.Text)
 	}
 }
